@@ -163,3 +163,30 @@ Proof. exact UserFailPrefix.user_failure_prefix_node. Qed.
 Print Assumptions eval_user_failure.
 Print Assumptions user_failure_prefix.
 Print Assumptions user_failure_prefix_node.
+
+(* ---- SOURCE LEVEL (Proofs/EndToEndMore.v, session 3): the source  <p>a</p><p :text=Q${s}Q>x</p><p :text=Q${zz}Q>y</p><p>b</p>
+   for EVERY string s: with zz unbound the render fails with the no-such-value cause after writing exactly
+   <p>a</p><p>escape(s)</p><p> — nothing after the failure — and that output is a prefix of what the same render writes
+   when zz is bound. *)
+From Coq Require Import List NArith ZArith Bool Lia Arith String Ascii Permutation.
+From Tpl Require Import Html.Exec Html.Manager Gen.Facts Proofs.ExecSpec Proofs.SortProps Proofs.FuelMono
+  Proofs.ReadbackExample Proofs.EndToEnd Proofs.EndToEndDirectives Proofs.OrderIrrelevant Proofs.PosIrrelevant.
+Import ListNotations.
+Open Scope N_scope.
+From Tpl Require Import Proofs.EndToEndMore.
+Theorem e2e_failure_source_to_output_thm : loads_and src_fail (fun tp =>
+  forall (s : str) (t : tbl) (st : rst) (fuel : nat), r_budget st = None -> (3 <= fuel)%nat ->
+  bx_execute bx_mgr fuel tp (VMap [(s2l "s", VStr s)]) t st =
+    (s2l "<p>a</p><p>" ++ escape s ++ s2l "</p><p>", RErr (RC CNoSuchValue), t, st) /\
+  forall u : str,
+  bx_execute bx_mgr fuel tp (VMap [(s2l "s", VStr s); (s2l "zz", VStr u)]) t st =
+    (s2l "<p>a</p><p>" ++ escape s ++ s2l "</p><p>" ++ escape u ++ s2l "</p><p>b</p>", ROk, t, st)).
+Proof. exact EndToEndMore.e2e_failure_source_to_output. Qed.
+Theorem e2e_failure_output_is_prefix_thm : forall (s u : str) (t : tbl) (st : rst) (fuel : nat) out1 r1 t1 st1 out2 r2 t2 st2,
+  r_budget st = None -> (3 <= fuel)%nat ->
+  bx_execute bx_mgr fuel (tp_of root_fail) (VMap [(s_s, VStr s)]) t st = (out1, r1, t1, st1) ->
+  bx_execute bx_mgr fuel (tp_of root_fail) (VMap [(s_s, VStr s); (s_zz, VStr u)]) t st = (out2, r2, t2, st2) ->
+  r1 = RErr (RC CNoSuchValue) /\ r2 = ROk /\
+  out2 = out1 ++ escape u ++ s2l "</p><p>b</p>" /\ length out1 = (18 + length (escape s))%nat.
+Proof. exact EndToEndMore.e2e_failure_output_is_prefix. Qed.
+Print Assumptions e2e_failure_source_to_output_thm.
